@@ -255,52 +255,55 @@ def r4(ctx):
           [None, St[0][0] - St[1][1] - St[2][2], St[0][1] + St[1][0], St[2][0] + St[0][2]],
           [None, None, -St[0][0] + St[1][1] - St[2][2], St[1][2] + St[2][1]],
           [None, None, None, -St[0][0] - St[1][1] + St[2][2]]]
+    def find(env, value, exclude=()):
+        """name of a scalar local whose value is `value` (locals are identified by what they hold, not by how they are called)"""
+        for k_, v_ in env.items():
+            if isinstance(k_, str) and k_ not in exclude and isinstance(v_, Rat) and v_ == value:
+                return k_
+        return None
+    kn_w = [[find(s.env, Kw[a][b]) if b >= a else None for b in range(4)] for a in range(4)]
+    kn_t = [[find(s.env, Kt[a][b]) if b >= a else None for b in range(4)] for a in range(4)]
+    is_t = all(kn_t[a][b] is not None for a in range(4) for b in range(a, 4))
+    is_w = all(kn_w[a][b] is not None for a in range(4) for b in range(a, 4))
+    kn = kn_t if is_t else kn_w
+    ref = Kt if is_t else Kw
     K = [[None] * 4 for _ in range(4)]
+    # the quaternion key matrix of S or of S^T (which one is right depends on which structure is rotated and how R is applied: decided by the linking identity in R5)
     for a in range(4):
         for b in range(a, 4):
-            K[a][b] = K[b][a] = s.env.get("k%d%d" % (a, b))
+            K[a][b] = K[b][a] = ref[a][b] if kn[a][b] is not None else None
+            dec(kn[a][b] is not None, "K[%d][%d] = %r is computed (key matrix of %s)" % (a, b, ref[a][b], "S^T" if is_t else "S"),
+                "no local holds the key-matrix entry (%d,%d) = %r (for S) / %r (for S^T)" % (a, b, Kw[a][b], Kt[a][b]))
     if any(K[a][b] is None for a in range(4) for b in range(4)):
-        raise AnalysisError("msdFromMandG: key matrix entries not found")
-    is_w = all(K[a][b] == Kw[a][b] for a in range(4) for b in range(a, 4))
-    is_t = all(K[a][b] == Kt[a][b] for a in range(4) for b in range(a, 4))
-    # Theobald's K for S or for S^T (which one is right depends on which structure is rotated and how R is applied: decided by the linking identity in R5)
-    for a in range(4):
-        for b in range(a, 4):
-            ref = Kt if is_t else Kw
-            dec(K[a][b] == ref[a][b], "K[%d][%d] = %r  (key matrix of %s)" % (a, b, ref[a][b], "S^T" if is_t else "S"),
-                "key-matrix entry k%d%d is %r; the quaternion key matrix has %r (for S) or %r (for S^T)" % (a, b, K[a][b], Kw[a][b], Kt[a][b]))
-    if any(K[a][b] is None for a in range(4) for b in range(4)):
-        raise AnalysisError("msdFromMandG: key matrix entries not found")
-    # ---- characteristic polynomial
+        return None         # reported above as violations; the identities that build on K cannot be stated
+    # ---- characteristic polynomial: the coefficients handed to the eigenvalue solver
     L = _sym("L")
     cp = det([[K[a][b] - (L if a == b else 0) for b in range(4)] for a in range(4)]).poly()
-    C2, C1, C0 = s.env.get("C_2"), s.env.get("C_1"), s.env.get("C_0")
+    ok_call = len(solver_args) == 1 and solver_args[0][0] == "DirectSolve" and len(solver_args[0][1]) == 4
+    dec(ok_call, "lambda = DirectSolve(., C_0, C_1, C_2)", "the eigenvalue solver is called as %s" % [(n, len(args)) for n, args in solver_args])
+    if not ok_call:
+        raise AnalysisError("msdFromMandG: eigenvalue solver call not recognised")
+    C0, C1, C2 = solver_args[0][1][1], solver_args[0][1][2], solver_args[0][1][3]
     for dgr, (nm, v) in enumerate((("C_0", C0), ("C_1", C1), ("C_2", C2))):
         want = cp.coeff_of("L", dgr)
-        dec(v is not None and v.poly() is not None and v.poly() == want, "%s is the lambda^%d coefficient of det(K - lambda I)" % (nm, dgr),
-            "%s = %r is not the lambda^%d coefficient of the characteristic polynomial of K (%r): the solver finds the roots of another quartic" % (nm, v, dgr, want))
+        dec(isinstance(v, Rat) and v.poly() is not None and v.poly() == want, "solver argument %d is the lambda^%d coefficient of det(K - lambda I)" % (dgr + 1, dgr),
+            "the value handed to the solver as %s, %r, is not the lambda^%d coefficient of the characteristic polynomial of K: the solver finds the roots of another quartic" % (nm, v, dgr))
     dec(cp.coeff_of("L", 3).is_zero() and cp.coeff_of("L", 4) == Poly.const(1), "det(K - lambda I) is monic with no cubic term (trace K = 0)", "characteristic polynomial has unexpected leading terms")
-    dec(s.env.get("detM") == det([[M(i + 3 * j) for j in range(3)] for i in range(3)]), "detM = det(M)", "detM is not the determinant of M")
-    dec(len(solver_args) == 1 and solver_args[0][0] == "DirectSolve" and len(solver_args[0][1]) == 4 and
-        [solver_args[0][1][k] == v for k, v in ((1, C0), (2, C1), (3, C2))] == [True] * 3,
-        "lambda = DirectSolve(., C_0, C_1, C_2)", "the eigenvalue solver is called as %s" % [(n, [repr(a)[:40] for a in args]) for n, args in solver_args])
-    # ---- msd formula and clamp (both paths of the clamp)
+    # ---- msd formula and clamp: evaluate the whole function with computeRot = 0
     want_msd = (_sym("G_x") + _sym("G_y") - 2 * _sym("lam")) / _sym("numAtoms")
-    rets = {}
-    for st in ex.run(body[i_rot:], [x.fork() for x in sts][0]) if False else []:
-        pass
-    for st in sts:
-        pol = dict(st.conds)
-        v = st.env.get("ls_rmsd2")
-        key = [p for c, p in st.conds if c.startswith("(rmsd2>")]
-        if key == [True]:
-            dec(v == want_msd and st.env.get("rmsd2") == want_msd, "msd = (G_a + G_b - 2 lambda)/N when positive", "msd is %r" % (v,))
-        elif key == [False]:
-            dec(v is not None and v.const_value() == 0, "msd clamped to 0 when the formula is not positive", "non-positive msd is returned as %r" % (v,))
-        else:
-            dec(False, "msd clamped to 0 when the formula is not positive", "the msd %r is returned without the clamp at zero (path conditions %s): rounding can make it negative and sqrt() then yields NaN" % (v, st.conds))
-    ret_stmt = [x for x in body if x["kind"] == "ReturnStmt"]
-    dec(len(ret_stmt) == 1 and C.ref_name(C.kids(ret_stmt[0])[0]) == "ls_rmsd2", "returns the clamped msd", "msdFromMandG returns something else than ls_rmsd2")
+    st0 = State()
+    st0.env["computeRot"] = Rat(Poly.const(0))
+    try:
+        full = SymExec(cf, TH, call_model=lambda name, args, n, st_, ex_: (_sym("lam") if name in ("DirectSolve", "NewtonSolve") else None)).run(body, st0)
+    except Unsupported as e:
+        raise AnalysisError("msdFromMandG: %s" % e)
+    pos = [x for x in full if x.ret is not None and x.ret == want_msd]
+    zero = [x for x in full if x.ret is not None and x.ret.const_value() == 0]
+    okp = len(full) == 2 and len(pos) == 1 and len(zero) == 1
+    if okp:
+        cv = [c for c, p_ in pos[0].cvals if p_]
+        okp = len(cv) == 1 and re.sub(r"\s", "", cv[0]) == re.sub(r"\s", "", "(%r>0)" % (want_msd,))
+    dec(okp, "returns (G_a + G_b - 2 lambda)/N when that is positive, else 0", "returned values are %s" % [(repr(x.ret)[:60], [c for c, _ in x.cvals]) for x in full])
     # DirectSolve: largest of the four roots of  lambda^4 + C2 lambda^2 + C1 lambda + C0
     ds = cf.function(TH, "DirectSolve")
     ctx.analysed_functions.add(TH + ":DirectSolve")
@@ -312,7 +315,10 @@ def r4(ctx):
     if len(calls) == 1:
         a = [re.sub(r"\s", "", C.text(x)) for x in C.call_args(calls[0])]
         coeff = dict(zip(qp, a))
-        ok = [coeff.get("d%d" % k) for k in range(5)] == ["C_0", "C_1", "C_2", "0.0", "1.0"] and a[:4] == ["(&r1)", "(&r2)", "(&r3)", "(&r4)"]
+        outs_ = [re.match(r"^\(&(\w+)\)$", x) for x in a[:4]]
+        dsp = [p_.get("name") for p_ in C.fparams(ds)]
+        ok = [coeff.get("d%d" % k) for k in range(5)] == [dsp[1] if len(dsp) > 3 else "?", dsp[2] if len(dsp) > 3 else "?", dsp[3] if len(dsp) > 3 else "?", "0.0", "1.0"] and \
+            all(outs_) and len({m_.group(1) for m_ in outs_}) == 4
         why = "coefficients d0..d4 = %s, outputs %s" % ([coeff.get("d%d" % k) for k in range(5)], a[:4])
     ctx.decide(ok, "C06-R4", C.line(ds), TH, "DirectSolve", "quartic solved with d0..d4 = C_0, C_1, C_2, 0, 1", "", "the quartic handed to the solver is not lambda^4 + C_2 lambda^2 + C_1 lambda + C_0: %s" % why)
     exd = SymExec(cf, TH, call_model=lambda name, args, n, st, e: (_assign_roots(st, args) if name == "quartic_equation_solve_exact" else None))
@@ -335,12 +341,17 @@ def r4(ctx):
     rs = C.kids(then)
     i_q = [i for i, x in enumerate(rs) if x["kind"] == "IfStmt"]
     if len(i_q) != 1:
-        raise AnalysisError("msdFromMandG: the qsqr test was not found in the rotation block")
+        raise AnalysisError("msdFromMandG: the |q|^2 test was not found in the rotation block")
     i_q = i_q[0]
     s2 = s.fork()
-    names = ["k%d%d" % (a, b) for a in range(4) for b in range(a, 4)]
-    s2.cut(names, suffix="")
-    s2.env["lambda"] = _sym("lam")
+    ksym = {}
+    for a in range(4):
+        for b in range(a, 4):
+            ksym[(a, b)] = _sym("k%d%d" % (a, b))
+            s2.env[kn[a][b]] = ksym[(a, b)]
+    lam_names = [k_ for k_, v_ in s.env.items() if isinstance(k_, str) and isinstance(v_, Rat) and v_ == _sym("lam")]
+    for nm_ in lam_names:
+        s2.env[nm_] = _sym("lam")
     try:
         r = ex.run(rs[:i_q], s2)[0]
     except Unsupported as e:
@@ -348,34 +359,51 @@ def r4(ctx):
     Kp = [[None] * 4 for _ in range(4)]
     for a in range(4):
         for b in range(a, 4):
-            Kp[a][b] = Kp[b][a] = r.env["k%d%d" % (a, b)]
-            want = _sym("k%d%d" % (a, b)) - (_sym("lam") if a == b else 0)
+            Kp[a][b] = Kp[b][a] = r.env[kn[a][b]]
+            want = ksym[(a, b)] - (_sym("lam") if a == b else 0)
             dec(Kp[a][b] == want, "K' = K - lambda I entry (%d,%d)" % (a, b), "entry (%d,%d) of K - lambda I is %r" % (a, b, Kp[a][b]))
+    qn = []
     for j in range(4):
-        dec(r.env.get("q%d" % j) == cofactor(Kp, 0, j), "q%d = cofactor (0,%d) of K - lambda I" % (j, j),
-            "q%d is not the cofactor (0,%d) of K - lambda I: q is not an eigenvector of K for lambda" % (j, j))
-    qs_ = [r.env.get("q%d" % j) for j in range(4)]
-    dec(r.env.get("qsqr") == qs_[0] * qs_[0] + qs_[1] * qs_[1] + qs_[2] * qs_[2] + qs_[3] * qs_[3], "qsqr = |q|^2", "qsqr is not the squared norm of q")
+        nm_ = find(r.env, cofactor(Kp, 0, j), exclude=set(qn))
+        qn.append(nm_)
+        dec(nm_ is not None, "q%d = cofactor (0,%d) of K - lambda I" % (j, j),
+            "no local holds the cofactor (0,%d) of K - lambda I: the vector used as quaternion is not an eigenvector of K for lambda" % j)
+    if any(x is None for x in qn):
+        return None
+    qs_ = [r.env[x] for x in qn]
+    qsq_val = qs_[0] * qs_[0] + qs_[1] * qs_[1] + qs_[2] * qs_[2] + qs_[3] * qs_[3]
+    qsq_name = find(r.env, qsq_val)
+    dec(qsq_name is not None, "|q|^2 is computed", "no local holds q0^2+q1^2+q2^2+q3^2")
     inner = rs[i_q]
     ik = C.kids(inner)
-    ctext = re.sub(r"\s", "", C.text(ik[0]))
-    dec(ctext.startswith("(qsqr<") and len(ik) == 3, "identity fallback only for |q|^2 below a threshold", "the degenerate-case test is %s" % ctext)
-    # identity branch
-    ident = ex.run(C.kids(ik[1]) if ik[1]["kind"] == "CompoundStmt" else [ik[1]], r.fork())[0]
-    got = [ident.env.get(("rot", k)) for k in range(9)]
-    dec(all(g is not None for g in got) and [g.const_value() for g in got] == [1, 0, 0, 0, 1, 0, 0, 0, 1], "degenerate case returns the identity", "degenerate case stores %r" % got)
     # general branch: cut q after the normalisation
-    r.cut(["q0", "q1", "q2", "q3"], suffix="")
-    r.env["qsqr"] = _sym("QS")
+    q = [_sym("q%d" % j) for j in range(4)]
+    for j in range(4):
+        r.env[qn[j]] = q[j]
+    if qsq_name is not None:
+        r.env[qsq_name] = _sym("QS")
     try:
-        e = ex.run(C.kids(ik[2]), r)[0]
+        branches = ex.run([inner], r.fork())
     except Unsupported as ee:
         raise AnalysisError("msdFromMandG rotation matrix: %s" % ee)
-    nq = e.env.get("normq")
-    no = ex.opaque.get(list(nq.vars())[0]) if nq is not None and len(nq.vars()) == 1 else None
-    dec(no is not None and no[0] == "sqrt" and no[1][0] == _sym("QS"), "normq = sqrt(qsqr)", "q is normalised by %r" % (nq,))
-    q = [_sym("q%d" % j) for j in range(4)]
-    dec(all(e.env.get("q%d" % j) == q[j] / nq for j in range(4)), "q normalised to unit length", "q is not divided by its norm")
+    small = [x for x in branches if any(p_ and re.sub(r"\s", "", c).startswith("(QS<") for c, p_ in x.cvals)]
+    big = [x for x in branches if any((not p_) and re.sub(r"\s", "", c).startswith("(QS<") for c, p_ in x.cvals)]
+    dec(len(branches) == 2 and len(small) == 1 and len(big) == 1, "identity fallback only for |q|^2 below a threshold", "the degenerate-case test is %s" % [x.cvals[-1:] for x in branches])
+    if len(small) != 1 or len(big) != 1:
+        raise AnalysisError("msdFromMandG: the |q|^2 threshold test was not recognised")
+    got = [small[0].env.get(("rot", k)) for k in range(9)]
+    dec(all(g is not None for g in got) and [g.const_value() for g in got] == [1, 0, 0, 0, 1, 0, 0, 0, 1], "degenerate case returns the identity", "degenerate case stores %r" % got)
+    e = big[0]
+    nq = None
+    for k_, v_ in e.env.items():
+        if isinstance(k_, str) and isinstance(v_, Rat) and len(v_.vars()) == 1 and v_.poly() is not None and v_.poly().degree() == 1:
+            f_ = ex.opaque.get(list(v_.vars())[0])
+            if f_ and f_[0] == "sqrt" and f_[1][0] == _sym("QS") and v_ == Rat(Poly.var(list(v_.vars())[0])):
+                nq = v_
+    dec(nq is not None, "normq = sqrt(|q|^2)", "no local holds sqrt(|q|^2)")
+    if nq is None:
+        raise AnalysisError("msdFromMandG: normalisation not found")
+    dec(all(e.env.get(qn[j]) == q[j] / nq for j in range(4)), "q normalised to unit length", "q is not divided by its norm")
     R9 = [e.env.get(("rot", k)) for k in range(9)]
     if any(x is None for x in R9):
         raise AnalysisError("msdFromMandG: rot[0..8] not all assigned")
@@ -556,18 +584,19 @@ def r5(ctx, facts):
     ctx.decide(ok, "C06-R5", C.line(fn), ROT, "rot_msd_atom_major", "msd = sum / n_real_atoms", "", "returned value is %s" % (C.text(C.kids(retn[0])[0]) if retn else None))
 
     # ---- linking identity:  sum_ij Rapplied_ij * S_ji = q^T K q, with S_ji = sum a_j b_i = M[3j+i]
-    N9, K, q = facts["N9"], facts["K"], facts["q"]
-    lhs = Rat(Poly.const(0))
-    for i in range(3):
-        for j in range(3):
-            lhs = lhs + N9[i + 3 * j] * _sym("M[%d]" % (3 * j + i))
-    rhs = Rat(Poly.const(0))
-    for a in range(4):
-        for b in range(4):
-            rhs = rhs + q[a] * K[a][b] * q[b]
-    ctx.decide(lhs == rhs, "C06-R4", C.line(cf.function(TH, "msdFromMandG")), TH, "msdFromMandG", "sum_ij R_ij S_ji = q^T K q: the rotation handed to rot_atom_major maximises the overlap of the rotated structure `a` with `b`",
-               "ties together M layout, K, the quaternion-to-matrix formula and the x' = x R convention",
-               "sum_ij R_ij S_ji != q^T K q: the rotation matrix stored in rot[] is not the one that superposes the structure it is applied to (transposed / applied to the wrong structure)")
+    if facts is not None:
+        N9, K, q = facts["N9"], facts["K"], facts["q"]
+        lhs = Rat(Poly.const(0))
+        for i in range(3):
+            for j in range(3):
+                lhs = lhs + N9[i + 3 * j] * _sym("M[%d]" % (3 * j + i))
+        rhs = Rat(Poly.const(0))
+        for a in range(4):
+            for b in range(4):
+                rhs = rhs + q[a] * K[a][b] * q[b]
+        ctx.decide(lhs == rhs, "C06-R4", C.line(cf.function(TH, "msdFromMandG")), TH, "msdFromMandG", "sum_ij R_ij S_ji = q^T K q: the rotation handed to rot_atom_major maximises the overlap of the rotated structure `a` with `b`",
+                   "ties together M layout, K, the quaternion-to-matrix formula and the x' = x R convention",
+                   "sum_ij R_ij S_ji != q^T K q: the rotation matrix stored in rot[] is not the one that superposes the structure it is applied to (transposed / applied to the wrong structure)")
 
     # ---- centring kernel
     ctx.analysed_files.add(CEN)
